@@ -43,7 +43,7 @@ var c18Fields = []c18Field{
 	{"p4rtciface.clear_state_on_restart", [2]string{c18Absent, `false`}, []string{`true`, `0`}},
 	{"cpiface.ue_ip_pool", [2]string{`"10.250.0.0/16"`, `"10.250.0.0/16"`}, []string{c18Absent, `"10.250.0.0"`, `""`, `"10.250.0.0/33"`, `"10.0.0.0/30"`, `"fd00::/64"`, `16`}},
 	{"cpiface.enable_ue_ip_alloc", [2]string{`false`, `false`}, []string{c18Absent, `true`, `"true"`}},
-	{"cpiface.peers", [2]string{`["148.162.12.214"]`, c18Absent}, []string{c18Absent, `[]`, `["1.2.3.4","5.6.7.8"]`, `["1.2.3.4","x"]`, `["::1"]`, `["smf.local"]`, `"1.2.3.4"`, `[1]`, `null`}},
+	{"cpiface.peers", [2]string{`["148.162.12.214"]`, c18Absent}, []string{c18Absent, `[]`, `["1.2.3.4","5.6.7.8"]`, `["1.2.3.4","x"]`, `[""]`, `["1.2.3.4",""]`, `["::1"]`, `["smf.local"]`, `"1.2.3.4"`, `[1]`, `null`}},
 	{"cpiface.hostname", [2]string{c18Absent, c18Absent}, []string{`"upf"`, `""`, `4`}},
 	{"cpiface.use_fqdn", [2]string{c18Absent, c18Absent}, []string{`true`, `false`}},
 	{"cpiface.dnn", [2]string{`"internet"`, `"internet"`}, []string{c18Absent, `""`}},
